@@ -194,3 +194,56 @@ def rule_dynamic_tables(ck, repo, R):
     fb = repo.func(f'{SMI}:CGRSmiles._format_bond')
     ck.decide('dyn_order_str[bond.order, bond.p_order]' in src(fb.node), R, 'cgr:bond-lookup', None, 'CGR bond token no longer looks up (order, p_order)', file=fb.file, line=fb.lineno)
     ck.floor(R, 40)
+
+
+def _chain_roles(call):
+    """chain(X.a, X.b, ...) or chain(d['a'], d['b'], ...) -> ['a', 'b', ...] (None when an argument has another form)"""
+    if not (isinstance(call, ast.Call) and isinstance(call.func, ast.Name) and call.func.id == 'chain'):
+        return None
+    out = []
+    for a in call.args:
+        if isinstance(a, ast.Attribute):
+            out.append(a.attr.lstrip('_'))
+        elif isinstance(a, ast.Subscript) and isinstance(a.slice, ast.Constant) and isinstance(a.slice.value, str):
+            out.append(a.slice.value)
+        else:
+            return None
+    return out
+
+
+def rule_role_zip(ck, repo, R, select, floor):
+    """every positional pairing of ReactionContainer.molecules() with per-role record data lists the roles in the order molecules() yields them"""
+    ck.rule(R, 'wherever reaction molecules are paired positionally with parsed per-role data (zip(rxn.molecules(), chain(d[role], ...))), the '
+               'roles are chained in exactly the order ReactionContainer.molecules() yields them (read from its source), so stereo marks / '
+               'post-processing of one role are never applied to the molecules of another')
+    rc = repo.cls('chython.containers.reaction:ReactionContainer')
+    ck.require(rc is not None, 'ReactionContainer not found')
+    f = repo.lookup(rc, 'molecules')
+    ck.require(f is not None, 'ReactionContainer.molecules not found')
+    order = None
+    for n in ast.walk(f.node):
+        if isinstance(n, ast.Return):
+            order = _chain_roles(n.value)
+    ck.require(order and sorted(order) == ['products', 'reactants', 'reagents'], f'ReactionContainer.molecules: unexpected form ({order})')
+    n_sites = 0
+    for fn in repo.all_functions():
+        if not select(fn):
+            continue
+        for n in ast.walk(fn.node):
+            if not (isinstance(n, ast.Call) and isinstance(n.func, ast.Name) and n.func.id == 'zip' and len(n.args) == 2):
+                continue
+            a, b = n.args
+            mols = [x for x in (a, b) if isinstance(x, ast.Call) and isinstance(x.func, ast.Attribute) and x.func.attr == 'molecules']
+            if not mols:
+                continue
+            other = b if mols[0] is a else a
+            roles = _chain_roles(other)
+            key = f'{fn.fq}:zip@{src(other)[:60]}'
+            n_sites += 1
+            if roles is None:
+                raise AnalysisError(f'{fn.fq}: molecules() is paired with `{src(other)[:80]}`, a form this rule does not know')
+            ck.decide(roles == order, R, key, f'roles {roles} == molecules() order',
+                      f'{fn.qualname} pairs molecules() (order {order}) with data chained as {roles}: the data of one role is applied to the molecules of another',
+                      file=fn.file, line=n.lineno, func=fn.qualname, construct=src(n)[:140])
+    ck.count(f'{R}: pairing sites', n_sites)
+    ck.floor(R, floor)
